@@ -18,9 +18,13 @@ def main (args : List String) : IO UInt32 := do
   match args with
   | ["store"] => loop StoreDrv.step hin hout StoreDrv.init; return 0
   | ["arch"] => loop ArchDrv.step hin hout ArchDrv.init; return 0
+  | ["cqd"] => loop CqdDrv.step hin hout CqdDrv.init; return 0
   | ["esctl"] => loop EsControlDrv.step hin hout EsControlDrv.init; return 0
   | ["viz"] => loop VizDrv.step hin hout VizDrv.init; return 0
   | ["ranker"] => loop RankerDrv.step hin hout RankerDrv.init; return 0
   | ["sched"] => loop SchedulerDrv.step hin hout SchedulerDrv.init; return 0
   | ["opt"] => loop OptDrv.step hin hout OptDrv.init; return 0
+  | ["bandit"] => loop BanditDrv.step hin hout BanditDrv.init; return 0
+  | ["alias"] => loop AliasDrv.step hin hout AliasDrv.init; return 0
+  | ["emit"] => loop EmitDrv.step hin hout EmitDrv.init; return 0
   | _ => IO.eprintln "usage: driver <machine>"; return 2
